@@ -498,7 +498,9 @@ func runC05(c *Ctx) {
 		}
 	}
 	c.check(bad == "", "C05.R5", "init-first "+m.fnName(setup), "kernelPDT.Init(fresh frame) succeeds before any kernelPDT.Map", bad, m.pos(setup.Pos()))
-	isAct := func(n int) bool { return gs.Ins[n] != nil && m.callsTo(gs.Ins[n], pdtAct) && isKernelPDT(gs.callArgs(n)[0]) }
+	isAct := func(n int) bool {
+		return gs.Ins[n] != nil && m.callsTo(gs.Ins[n], pdtAct) && isKernelPDT(gs.callArgs(n)[0])
+	}
 	nnil := 0
 	bad = ""
 	var visErr []int
@@ -563,7 +565,9 @@ func runC05(c *Ctx) {
 				continue
 			}
 			okBefore, _ := gi.MustPassBefore(n, func(k int) bool { return k == sc[0] })
-			errNil := hasFact(gi.FactsAt(n), func(f Fact) bool { return isNilFact(f, token.EQL, func(v ssa.Value) bool { return v == ssa.Value(call) }) })
+			errNil := hasFact(gi.FactsAt(n), func(f Fact) bool {
+				return isNilFact(f, token.EQL, func(v ssa.Value) bool { return v == ssa.Value(call) })
+			})
 			if !okBefore || !errNil {
 				bad = "vmm.Init performs " + callName(in.(*ssa.Call).Common()) + " on a path on which setupPDTForKernel has not succeeded"
 			}
